@@ -3,6 +3,7 @@ package internal
 import (
 	"context"
 	"sync"
+	"time"
 
 	oidcv1 "github.com/istio-ecosystem/authservice/config/gen/go/v1/oidc"
 	"github.com/istio-ecosystem/authservice/internal/vn"
@@ -11,6 +12,7 @@ import (
 func init() {
 	verifHarnesses["VerifC16_CAReloadWritesPooledConfig"] = VerifC16_CAReloadWritesPooledConfig
 	verifHarnesses["VerifC16_PoolMapUnderLock"] = VerifC16_PoolMapUnderLock
+	verifHarnesses["VerifC16_NoLockLeftHeld"] = VerifC16_NoLockLeftHeld
 }
 
 // VerifC16_CAReloadWritesPooledConfig (lockset audit): the CA reload callback rewrites RootCAs of
@@ -53,4 +55,43 @@ func VerifC16_PoolMapUnderLock() {
 	vn.Unwatch()
 	vn.Cover("C16/pool-audited", true)
 	vn.Assert("C16/pool-mutex-released", !vn.MutexHeld(&pool.caWatcher.mu))
+}
+
+// VerifC16_NoLockLeftHeld ("without deadlock"): whatever the TLS settings (valid, invalid or
+// unreadable CA, inline or file, any refresh interval) and whichever entry point ran last -- a
+// load, a repeated load, the CA-reload callback for a pooled id or for an id that never made it
+// into the pool (its first load failed, the watcher kept running) -- no mutex of the pool or of
+// the file watcher is still held when the call returns; a lock left behind blocks every later
+// check. Natively the same sequence is followed by a liveness probe with a time-out.
+func VerifC16_NoLockLeftHeld() {
+	pool := NewTLSConfigPool(context.Background()).(*tlsConfigPool)
+	k := kitTLSSettings("a")
+	_, _ = pool.LoadTLSConfig(k.cfg)
+	vn.Assert("C16/no-lock-left-held:after-load", vn.LocksHeld() == 0)
+	_, _ = pool.LoadTLSConfig(k.cfg)
+	vn.Assert("C16/no-lock-left-held:after-second-load", vn.LocksHeld() == 0)
+	id := encodeConfig(k.cfg).hash()
+	if vn.Choice("reload-for-unknown-id", 2) == 1 {
+		id = "never-pooled"
+	}
+	pool.updateCA(id, []byte(kitPEM("reloaded-ca")))
+	vn.Cover("C16/reload-callback-ran", true)
+	if vn.Symbolic() {
+		vn.Assert("C16/no-lock-left-held:after-reload", vn.LocksHeld() == 0)
+		return
+	}
+	done := make(chan struct{})
+	go func() {
+		defer close(done)
+		other := &oidcv1.OIDCConfig{TrustedCaConfig: &oidcv1.OIDCConfig_TrustedCertificateAuthority{TrustedCertificateAuthority: verifCAb}}
+		_, _ = pool.LoadTLSConfig(other) // takes the write lock to store a new entry
+		_, _ = pool.LoadTLSConfig(other)
+	}()
+	alive := false
+	select {
+	case <-done:
+		alive = true
+	case <-time.After(3 * time.Second):
+	}
+	vn.Assert("C16/no-lock-left-held:after-reload", alive)
 }
